@@ -3,6 +3,7 @@ from vlib.plan import CH, K
 
 FUNCTIONS = [
     "safeds_stubgen.api_analyzer._ast_visitor:MyPyAstVisitor.enter_funcdef",
+    "safeds_stubgen.api_analyzer._ast_visitor:MyPyAstVisitor._parse_results",
     "safeds_stubgen.api_analyzer._type_source_enums:TypeSourcePreference.from_string",
     "safeds_stubgen.api_analyzer._type_source_enums:TypeSourceWarning.from_string",
     "safeds_stubgen.docstring_parsing._docstring_style:DocstringStyle.from_string",
